@@ -779,7 +779,8 @@ class TypedTree(Tree):
                     counter = Counter()
                     for n in self:
                         counter[n.kind] += 1
-                    value_map.update({"kind": list(counter.keys())})
+                    # (a new dict: do not write into the caller's `value_map`)
+                    value_map = {**value_map, "kind": list(counter.keys())}
             else:
                 assert value_map is False, value_map
 
